@@ -177,6 +177,7 @@ class TermBuilder:
         self._in = {}
         self._memo = {}
         self._stack = set()
+        self.allowed = None      # when set: only definitions located in these blocks count as reaching (conditional evaluation)
         self.callees = CALLEES   # key -> Callee (shared registry)
 
     # ------------------------------------------------------------ definitions
@@ -335,6 +336,11 @@ class TermBuilder:
     def local_term(self, l, block, idx):
         key = (l, block, idx)
         rs = self.reaching(l, block, idx)
+        if self.allowed is not None:
+            ds = self.defs(l)
+            rs2 = [r for r in rs if r == -1 or ds[r][0] in self.allowed]
+            if rs2:
+                rs = rs2
         mk = (l, tuple(rs))
         if mk in self._memo:
             return self._memo[mk]
